@@ -57,7 +57,7 @@ class Scope:
         return d + q
 
 
-def value_key(v, scope):
+def value_key(v, scope, problems=None):
     if isinstance(v, bool):
         return ("bool", v)
     if isinstance(v, int):
@@ -74,7 +74,10 @@ def value_key(v, scope):
             raise ReaderError("typed literal object lacks '$'")
         if "lang" in v:
             if "type" in v:
-                raise ReaderError("typed literal object has both 'type' and 'lang'")
+                if scope.resolve(v["type"]) != PROV + "InternationalizedString":
+                    raise ReaderError("language-tagged literal typed %r" % (v["type"],))
+                if problems is not None:
+                    problems.append("typed literal object has both 'type' and 'lang'")
             if not isinstance(v["$"], str) or not isinstance(v["lang"], str):
                 raise ReaderError("language-tagged literal must be a string with a string tag")
             return lang_value(v["$"], v["lang"])
@@ -132,7 +135,7 @@ def read_container(obj, scope, problems):
                         if isinstance(av, list) and not av:
                             problems.append("empty value array for %s" % an)
                         for v in vals:
-                            pairs.append((auri, value_key(v, scope)))
+                            pairs.append((auri, value_key(v, scope, problems)))
                 recs[mk_key(kind, ident, pairs)] += 1
     return recs
 
